@@ -14,7 +14,7 @@ class Prop(BaseProp):
             "limits y1/y2 (1e-9), profile(t) at interior times, exact zeros at shared spike times and spike_distance "
             "are compared with the exact rational model of the statement. distinct = distinct interleaving words "
             "(+RI, MRTS regime) among non-trivial pairs")
-    budget = {"quick": 1200, "thorough": 40000}
+    budget = {"quick": 2400, "thorough": 400000}
     must_see = ["empty_train", "one_spike_train_on_t_start", "one_spike_train_on_t_end", "shared_interior_spike",
                 "shared_spike_on_t_start", "shared_spike_on_t_end", "RI_true", "mrts_above_all_isis",
                 "mrts_between_isis", "nearest_is_auxiliary_spike", "evaluated_at_interior_time"]
